@@ -227,6 +227,10 @@ def lang_nonempty(sol, s, inside, outside):
     return sol.check(z3.InRe(s, z3.Intersect(z3.Star(rx.DOT), inside, z3.Complement(outside))))
 
 
+class _SkipO2(Exception):
+    pass
+
+
 def work(task):
     pattern, h, xbound, timeout = task["pattern"], task["h"], task["X"], task["timeout"]
     nbound = task["N"].get(len([t for t in parse_pattern(pattern) if t[0] == "var"]), 2)
@@ -285,8 +289,12 @@ def work(task):
         rec("O1", {"unsat": "ok", "sat": "cex"}.get(r, "unknown"), t0,
             {"kind": "roundtrip", "values": {n: rx.py_string(m, zv[n]) for n in names}} if m else None)
 
-        # O2: all admissible parses agree with v -- delimiter-free values only
+        # O2: all admissible parses agree with v -- delimiter-free values only; attempted for
+        # patterns with <= 4 variables (beyond that the word-equation query does not finish and
+        # only the exact engine O2x is claimed)
         t0 = time.time()
+        if len(names) > 4:
+            raise _SkipO2()
         valid_df = []
         for (_, n, multi) in vars_:
             valid_df.append(z3.InRe(zv[n], ok_single))
@@ -304,6 +312,9 @@ def work(task):
                 st = "fallback"
             rec("O2", st, t0, cex)
 
+    except _SkipO2:
+        pass
+    try:
         # O3: any matched path rebuilds to itself
         t0 = time.time()
         p = z3.String("p")
@@ -460,7 +471,7 @@ def translator_validation(chk, helpers_by_pattern, rnd):
 
 def body(chk: core.Check):
     tier = chk.tier
-    N = {1: 4, 2: 4, 3: 3, 4: 2} if tier == "quick" else {1: 8, 2: 8, 3: 4, 4: 3}
+    N = {1: 4, 2: 4, 3: 3, 4: 2} if tier == "quick" else {1: 8, 2: 6, 3: 4, 4: 2}
     X = {1: 6, 2: 4, 3: 3, 4: 3, 5: 2, 6: 2} if tier == "quick" else {1: 8, 2: 6, 3: 4, 4: 3, 5: 3, 6: 2}
     timeout = 60 if tier == "quick" else 300
     chk.engines |= {"RX (z3 seq/regex)", "BSTR (exact backtracking order, z3 ints)"}
